@@ -179,7 +179,11 @@ def judgeC05 (o : Obs) : Verdict :=
       -- the handler that catches the scope's exception, if the very next event of that activity
       match (ofLabel o e.label).find? (fun q => q.2 > p.2) with
       | some (c, _) =>
-        if c.tag == "caught" && c.time == e.time then
+        -- (a block that is left by an exception coming out of an inner block - the event just before is that
+        -- inner block's exceptional exit in the same turn - passes that exception on: body_exception_wins)
+        let fromInner := (((ofLabel o e.label).filter (fun q => q.2 < p.2)).getLast?).any (fun q =>
+          q.1.tag == "sexit" && arg q.1 2 == 1 && q.1.time == e.time && q.1.turn == e.turn)
+        if c.tag == "caught" && c.time == e.time && !fromInner then
           let kids := o.events.filterMap (fun s => if s.tag == "spawn" && arg s 0 == inst then some (arg s 1) else none)
           let fails := (idx o).filterMap (fun q =>
             if q.2 < p.2 && q.1.tag == "tfin" && arg q.1 0 == 3 && kids.contains q.1.label then some (q.1.args.drop 1, q.1.time) else none)
@@ -501,12 +505,26 @@ def judgeC15 (o : Obs) (start : Rat) : Verdict :=
 /-- scenario convention: the probed activity logs `100` right before and `101` right after the
 operation; spinners (spawned or made runnable just before) log `200 + i`. -/
 def judgeC20 (o : Obs) (spinners : Nat) : Verdict :=
-  match (idx o).find? (fun p => p.1.tag == "log" && arg p.1 0 == 100), (idx o).find? (fun p => p.1.tag == "log" && arg p.1 0 == 101) with
+  (match (idx o).find? (fun p => p.1.tag == "log" && arg p.1 0 == 100), (idx o).find? (fun p => p.1.tag == "log" && arg p.1 0 == 101) with
   | some (_, i), some (_, j) =>
     (List.range spinners).flatMap (fun (s : Nat) =>
       fail (!((idx o).any (fun p => p.2 > i && p.2 < j && p.1.tag == "log" && arg p.1 0 == 200 + (s : Int))))
         s!"the operation completed before runnable activity {s} got its turn")
-  | _, _ => []
+  | _, _ => []) ++
+  -- each step of interval()/delay() that passes no time (the body used up the period, period 0): scenario
+  -- convention: the ticker is root activity 0, the spinners are the root activities 1..k and stay runnable
+  -- throughout every time step the ticker touches
+  (idx o).flatMap (fun p =>
+    if p.1.tag == "tbodyend" then
+      match (ofLabel o p.1.label).find? (fun q => q.2 > p.2) with
+      | some (t, j) =>
+        if t.tag == "tick" && t.time == p.1.time then
+          (List.range spinners).flatMap (fun (s : Nat) =>
+            fail (!((idx o).any (fun q => q.2 > p.2 && q.2 < j && q.1.label == 1 + (s : Int))))
+              s!"a step of the ticker of activity {p.1.label} at {t.time} completed before runnable activity {s + 1} got a turn")
+        else []
+      | none => []
+    else [])
 
 /-! ### C16 - collect() / first() -/
 
@@ -702,6 +720,16 @@ def judgeC18 (o : Obs) : Verdict :=
            | none => false) || memberFailureF fuel m got upto)
       | none => false
   let memberFailure (i : Int) (got : List Int) (upto : Rat) : Bool := memberFailureF 6 i got upto
+  let rec leavesF (fuel : Nat) (i : Int) : List Int :=
+    match fuel with
+    | 0 => []
+    | fuel + 1 =>
+      match infos.find? (·.idx == i) with
+      | some inf => if inf.kind ≥ 3 then inf.members.flatMap (leavesF fuel) else [i]
+      | none => [i]
+  let leaves (i : Int) : List Int := match infos.find? (·.idx == i) with
+    | some inf => inf.members.flatMap (leavesF 6)
+    | none => []
   -- which `Interrupt` receipts of a process are interrupts (a pending call with that cause: interrupts take
   -- precedence over the awaited event) and which are the value of a failed event; the rest is unexplained
   let classify (pr : PyInfo) : List ((Ev × Nat) × (Ev × Nat)) × List (Ev × Nat) :=
@@ -741,6 +769,11 @@ def judgeC18 (o : Obs) : Verdict :=
             fail (arg y.1 3 == 0 && got != [0, arg y.1 2]) s!"process {pr.proc} received {got} from an activity that returned {arg y.1 2}" ++
             fail (arg y.1 3 == 1 && got.headD 0 != 1) s!"process {pr.proc} received {got} from an activity that failed"
         else if (got.take 2 == [1, 16] && !asValue) || target < 0 then []
+        else if (infos.find? (·.idx == target)).any (fun inf => inf.kind == 3 || inf.kind == 4) && got.headD 0 == 1 &&
+            memberFailure target got r.1.time then
+          -- the failure of a (nested) member, passed on by the condition; which of several members that trigger in
+          -- one time step decides is not fixed by the statement
+          []
         else match out target with
           | none => [s!"process {pr.proc} resumed at {r.1.time} from waiting for event {target}, which never triggered"]
           | some (t, code) =>
@@ -758,10 +791,10 @@ def judgeC18 (o : Obs) : Verdict :=
               s!"process {pr.proc} received {got} from condition {target}, expected outcome kind {code}" ++
             -- exactly the members fired by then: everything strictly earlier is in, nothing later
             (if isCond && got.headD 0 == 2 then
-              let ms := ((infos.find? (·.idx == target)).map (·.members)).getD []
-              let flat := ms.all (fun m => (infos.find? (·.idx == m)).any (fun inf => inf.kind < 3))
-              if flat then
-                ms.flatMap (fun m => match out m with
+              -- the events a (nested) condition is about: its leaves
+              let ms := leaves target
+              if true then
+                ms.eraseDups.flatMap (fun m => match out m with
                   | some (tm, c) =>
                     fail (tm < t && c.headD 0 == 0 && !(got.drop 1).contains m) s!"condition {target} fired at {t} without exposing member {m} fired at {tm}" ++
                     fail (tm > t && (got.drop 1).contains m) s!"condition {target} fired at {t} exposing member {m} that fires only at {tm}"
